@@ -31,6 +31,14 @@ theorem readMax_wf (c : Cfg) (hw : WF c) (sh : Sh) : readMax c sh = min c.rblock
 
 /-! ## The ring contract (what Core D proves for the real ring, `Properties/C15.lean`)
 
+DERIVED, not assumed: `Proofs/LifecycleRing.lean` (`ring_contract`, restated as `C16_ring_contract_is_C15` in
+`Properties/C16.lean`) shows that every call of the ring PROGRAM (`Model/Ring.lean`) behaves, seen through
+`absRing = (pseq - cseq, done)`, like the `RingA` function named here — from `C15_call_refines_ringA_producer / _consumer /
+_close`, `C15_readfrom_refines_ringA`, `C15_parked_iff_guard_false`, `C15_step_refines_ringA` — up to ONE difference, named
+there: `RingA` tests `done` and the cursors in one atomic step, the ring at two statements of a call.  The lemmas of this
+section are properties of the `RingA` FUNCTIONS (used by the life-cycle proofs); the correspondence by name in the list
+below is now that theorem.
+
 * `close_returns`      — `Close` always returns and sets `done`              (C15_CloseTerminates, C15_NoLeak)
 * `done_waitSpace`, `done_commitP`, `done_waitData`
                        — once `done` is set every blocked or later call returns, with end-of-stream
